@@ -21,8 +21,8 @@ FLAGS_SAT = ["-fno-access-control", "-DOSMIUM_VERIF_INPUT_BUFFER_SIZE=64", "-DOS
 
 def build(ctx):
     vs = ctx.vsched_obj()
-    return {"h07": ctx.build("h07", ["h07.cpp"], flags=FLAGS, opt="-O1", objects=[vs]),
-            "h07sat": ctx.build("h07sat", ["h07.cpp"], flags=FLAGS_SAT, opt="-O1", objects=[vs]),
+    return {"h07": ctx.build("h07", ["h07.cpp"], flags=FLAGS + ctx.atomic_points(), opt="-O1", objects=[vs]),
+            "h07sat": ctx.build("h07sat", ["h07.cpp"], flags=FLAGS_SAT + ctx.atomic_points(), opt="-O1", objects=[vs]),
             "h07tsan": ctx.build_tsan_free("h07tsan", ["h07.cpp"], flags=FLAGS)}
 
 
